@@ -4,6 +4,7 @@ package main
 // builtins, documented-function spot laws.
 
 import (
+	"encoding/json"
 	"fmt"
 	"math"
 	"math/big"
@@ -49,23 +50,77 @@ func carrierSwap(ctx *common.Ctx, car *common.Oracle, distinct map[string]bool, 
 		}
 		identical := marshalS(alt) == baseJSON
 		same := false
-		if !identical && a.class == base.class {
+		if !identical {
 			switch {
-			case strings.HasPrefix(a.class, "err:"):
+			case printsNumbers[n.name]:
+				same = true // the text printed from the literal differs by design (and with it whatever is decoded from that text)
+			case a.class == base.class && strings.HasPrefix(a.class, "err:"):
 				same = true // the message quotes the literal
-			case a.class == "ok" && printsNumbers[n.name]:
-				same = true
 			}
 		}
 		if same {
 			continue
 		}
-		ctx.Violate("carrier-swap:"+n.name, fmt.Sprintf("%s depends on the Go carrier of a number: %s with carriers %s, but %s with carriers %s",
+		key := "carrier-swap:" + n.name
+		// root cause probe: toIntCeil applies math.Ceil to float64 only, so a fractional json.Number
+		// used as the END of a slice is truncated instead. If carrying exactly those values as
+		// float64 removes the difference, the violation is keyed by that cause (one defect, many natives).
+		if fixed, changed := floatSliceEnds(n.name, w); changed {
+			if b := callNative(n.info.Callback, fixed[0], fixed[1:]); b.text == base.text {
+				key = "carrier-swap:slice-end-json.Number"
+			}
+		}
+		ctx.Violate(key, fmt.Sprintf("%s depends on the Go carrier of a number: %s with carriers %s, but %s with carriers %s",
 			label(n.name, t), clipS(base.text, 200), carrierNames(wrapper), clipS(a.text, 200), carrierNames(w)),
 			map[string]any{"native": n.name, "input": common.Canon(t.in), "args": canonList(t.args), "carriers_a": carrierNames(wrapper), "observed_a": base.text,
 				"carriers_b": carrierNames(w), "observed_b": a.text, "values_b": fmt.Sprintf("%#v", w),
 				"note": "through the command line, numbers of the input document arrive as json.Number and numbers written in the query as int/float64"})
 	}
+}
+
+// floatSliceEnds re-carries as float64 every json.Number that is the "end" member of an object
+// (a slice path component) or the end argument of _slice.
+func floatSliceEnds(name string, w []any) ([]any, bool) {
+	changed := false
+	conv := func(v any) any {
+		if n, ok := v.(json.Number); ok {
+			if f, err := n.Float64(); err == nil {
+				changed = true
+				return f
+			}
+		}
+		return v
+	}
+	var walk func(v any) any
+	walk = func(v any) any {
+		switch x := v.(type) {
+		case []any:
+			ys := make([]any, len(x))
+			for i, y := range x {
+				ys[i] = walk(y)
+			}
+			return ys
+		case map[string]any:
+			m := make(map[string]any, len(x))
+			for k, y := range x {
+				if k == "end" {
+					m[k] = conv(y)
+				} else {
+					m[k] = walk(y)
+				}
+			}
+			return m
+		}
+		return v
+	}
+	out := make([]any, len(w))
+	for i, x := range w {
+		out[i] = walk(x)
+	}
+	if name == "_slice" && len(out) == 4 {
+		out[2] = conv(out[2]) // args = (value, end, start)
+	}
+	return out, changed
 }
 
 func carrierNames(xs []any) string {
@@ -209,6 +264,23 @@ func builtinJqOracle(ctx *common.Ctx) {
 
 // ---------------------------------------------------------------------------------------------
 // (c) documented-function spot laws through the public API
+
+// exactLdexp: x·2^e rounded to the nearest float64 (ties to even), by math/big.
+func exactLdexp(x, e float64) float64 {
+	if x == 0 || math.IsInf(x, 0) || math.IsNaN(x) {
+		return x
+	}
+	if e > 3000 {
+		return math.Inf(int(math.Copysign(1, x)))
+	}
+	if e < -3000 {
+		return math.Copysign(0, x)
+	}
+	z := new(big.Float).SetPrec(200).SetFloat64(x)
+	z.SetMantExp(z, int(e))
+	f, _ := z.Float64()
+	return f
+}
 
 type law struct {
 	name string
@@ -480,6 +552,36 @@ func lawsOracle(ctx *common.Ctx) {
 					ctx.Violate("law:range-arithmetic", fmt.Sprintf("[range(%v; %v; %v)] = %v, the arithmetic progression is %v", a, b, c, got, want),
 						map[string]any{"a": a, "b": b, "c": c, "observed": got, "expected": want, "cmd": fmt.Sprintf("gojq -nc '[range(%v; %v; %v)]'", a, b, c)})
 				}
+			}
+		}
+	}
+	// ldexp / scalb / scalbln against exact scaling (math/big): x·2^e correctly rounded
+	lc, err := gojq.Compile(parseQ(`ldexp($a; $b), scalb($a; $b), scalbln($a; $b)`), gojq.WithVariables([]string{"$a", "$b"}))
+	if err != nil {
+		panic(err)
+	}
+	exps := []any{0, 1, -1, 52, -52, 1023, 1024, -1022, -1074, -1075, -1076, 2000, -2000, 2147483647, -2147483648, bigOf("9223372036854775807"), bigOf("-9223372036854775807"), bigOf("-9223372036854775808"), 1e18, -1e18}
+	for _, x := range []float64{0.5, -0.5, 1, 1.5, 3, 1e-7, 5e-324, 1e300, 0, math.Copysign(0, -1), 0.75, 2.2250738585072014e-308, 1.7976931348623157e308} {
+		for _, e := range exps {
+			ef, _ := numOf(e)
+			want := exactLdexp(x, ef)
+			out := common.RunCode(lc, nil, 100000, 10, x, e)
+			o.Cases++
+			o.Distribution["ldexp-exact"]++
+			distinct++
+			ok := out.Err == nil && out.Panic == "" && len(out.Outs) == 3
+			if ok {
+				for _, v := range out.Outs {
+					f, isf := v.(float64)
+					if !isf || math.Float64bits(f) != math.Float64bits(want) {
+						ok = false
+					}
+				}
+			}
+			if !ok {
+				ctx.Violate("law:ldexp-exact", fmt.Sprintf("ldexp(%v; %v) = %s, but %v·2^%v correctly rounded is %v", x, e, common.CanonOutcome(out), x, e, want),
+					map[string]any{"x": x, "e": fmt.Sprint(e), "observed": common.CanonOutcome(out), "expected": fmt.Sprint(want), "cmd": fmt.Sprintf("gojq -nc 'ldexp(%v; %v)'", x, e),
+						"note": "math.Ldexp adds the exponent of x to the count in int arithmetic, which wraps around next to MinInt64"})
 			}
 		}
 	}
